@@ -200,6 +200,7 @@ Definition add (a b : value) : ores :=
       match b with
       | VStr u => OVal (VStr (t ++ u))
       | VNum y => match num_text y with Some ty => OVal (VStr (t ++ ty)) | None => ONoText end
+      | VBool c => OVal (VStr (t ++ (if c then s_true else s_false)))
       | _ => OErr RRightStrNum
       end
   | _ => OErr ROperandsNumStr
